@@ -8,8 +8,19 @@ TablesFile == IOEnv.VERIF_TABLES
 VARIABLE row
 Init == row = 0
 Next == row = 0 /\ row' \in 1..Len(Obs)
-Emit == row = 0 \/ (Obs[row].ok =>
-          \A x \in NpmViolations(Obs[row].universe, Obs[row].graph, Obs[row].tree) :
-             CSVWrite("%1$s", <<ToJson([law |-> x[1], n |-> row, k |-> x[2]])>>, RejFile))
+\* records replayed from NpmResolveMC carry what the algorithm model NpmResolve.tla returns: graph nodes in creation order,
+\* the set of edges, and the install tree as (directory, parent directory) pairs by graph id.  The real resolver must return
+\* the same; a difference is information (the verdict on C06 is always the clauses on the REAL graph and tree).
+HasModel(o) == "model" \in DOMAIN o
+AsSet(s) == {s[i] : i \in 1..Len(s)}
+RealTree(o) == {[gid |-> o.tree[x].gid, pgid |-> IF o.tree[x].parent = 0 THEN 0 ELSE o.tree[o.tree[x].parent].gid] : x \in 1..Len(o.tree)}
+ModelDiff(o) == IF ~HasModel(o) THEN {}
+                ELSE IF ~o.ok THEN {"info-resolver-error-differs-from-algorithm-model"}
+                ELSE IF o.graph.nodes # o.model.nodes \/ AsSet(o.graph.edges) # AsSet(o.model.edges) THEN {"info-graph-differs-from-algorithm-model"}
+                ELSE IF RealTree(o) # AsSet(o.model.tree) THEN {"info-install-tree-differs-from-algorithm-model"}
+                ELSE {}
+LawsOK(o) == o.ok => \A x \in NpmViolations(o.universe, o.graph, o.tree) : CSVWrite("%1$s", <<ToJson([law |-> x[1], n |-> row, k |-> x[2]])>>, RejFile)
+ModelOK(o) == \A l \in ModelDiff(o) : CSVWrite("%1$s", <<ToJson([law |-> l, n |-> row, k |-> 0])>>, RejFile)
+Emit == row = 0 \/ (LawsOK(Obs[row]) /\ ModelOK(Obs[row]))
 ASSUME CSVWrite("%1$s", <<ToJson([law |-> "stats", n |-> Len(Obs), k |-> 0])>>, RejFile)
 =============================================================================
